@@ -310,6 +310,11 @@ func (s *sched) nobodyEnabled() {
 		}
 	} else {
 		s.exec.Quiescent = true
+		for _, t := range s.threads {
+			if !t.finished {
+				s.exec.Blocked = append(s.exec.Blocked, t.name)
+			}
+		}
 	}
 	s.abort = true
 	s.baton = -1
@@ -332,7 +337,7 @@ func Settle(can func() bool) {
 	if !s.mine() {
 		return
 	}
-	for i := 0; i < 20000 && !can(); i++ {
+	for i := 0; i < SettleYields && !can(); i++ {
 		runtime.Gosched()
 	}
 }
@@ -349,6 +354,9 @@ var SpawnPolicy = map[string]string{}
 // DaemonSettle is how many processor yields a scheduler with no enabled thread grants to foreign
 // goroutines (daemons in pass-through mode that may hold a lock) before concluding deadlock/quiescence.
 var DaemonSettle = 5000
+
+// SettleYields bounds Settle (see there). Scenarios without foreign goroutines set it to 0.
+var SettleYields = 20000
 
 // OnRunStart hooks run at the start of every execution (shims reset per-execution registries).
 var OnRunStart []func()
